@@ -3,6 +3,7 @@ import numpy as np
 from harness.envs.base import EnvAdapter
 
 DEFAULTS = dict(num_rows=12, num_cols=12, time_limit=4000)
+INJ_PROPS = ["C03", "C04", "C05", "C07", "C09", "C12"]
 MOVES = np.array([[-1, 0], [0, 1], [1, 0], [0, -1]])
 
 
@@ -40,6 +41,9 @@ class Adapter(EnvAdapter):
                 # one full-length episode at the default time limit (sparse probes)
                 _c("r3c5_t4000_long", 1, 4010, ["survive"], g(3, 5, 4000), probe_every=250,
                    props=["C01", "C03", "C11", "C12", "C07"]),
+                # INJ: every snake/fruit configuration of the 2x3 TLC model as a start state, all 4 actions probed
+                _c("inj2x3", 0, 1, ["masked"], g(2, 3, 4000), inject=("MC_Snake", "MC_Snake_quick.cfg"), post_terminal=0,
+                   limit=1500, props=INJ_PROPS),
             ]
         out = [
             _c("default", 16, 120, ["seek", "seek", "mostly_masked", "random", "masked", "seek"]),
@@ -52,6 +56,10 @@ class Adapter(EnvAdapter):
             for t in (1, 2, 3, 7):
                 out.append(_c(f"r{r}c{c}_t{t}", 16, t + 3, ["survive", "survive", "seek", "mostly_masked", "random"],
                               g(r, c, t)))
+        out.append(_c("inj2x3", 0, 2, ["masked"], g(2, 3, 4000), inject=("MC_Snake", "MC_Snake_quick.cfg"), post_terminal=0,
+                      props=INJ_PROPS))
+        out.append(_c("inj3x3", 0, 1, ["masked"], g(3, 3, 4000), inject=("MC_Snake", "MC_Snake_thorough.cfg"), post_terminal=0,
+                      limit=8000, props=INJ_PROPS))
         for t in (1, 2, 3, 7):
             out.append(_c(f"r12c12_t{t}", 8, t + 3, ["survive", "seek", "random"], g(12, 12, t)))
         return out
@@ -59,7 +67,52 @@ class Adapter(EnvAdapter):
     def make(self, cfg):
         from jumanji.environments import Snake
 
-        return Snake(**cfg["ctor"])
+        if "inject" not in cfg:
+            return Snake(**cfg["ctor"])
+        return self._make_injected(cfg)
+
+    def _make_injected(self, cfg):
+        """INJ: every snake/fruit configuration reachable in the TLC model (all self-avoiding snakes of the small grid,
+        including full boards, surrounded heads and heads next to the tail) as a start state; step, mask and observation
+        code are the real ones."""
+        import jax.numpy as jnp
+
+        from harness import inject
+        from jumanji.environments import Snake
+        from jumanji.environments.routing.snake.types import Position, State
+        from jumanji.types import restart
+
+        inject.need(Snake, "_get_action_mask", "_state_to_observation")
+        states, _ = inject.dump_states(cfg["inject"][0], cfg["inject"][1], limit=None)
+        seen = {}
+        cells = cfg["ctor"]["num_rows"] * cfg["ctor"]["num_cols"]
+        for st in states:
+            if st["length"] < cells:      # a full board ends the episode: not a state the episode continues from
+                seen.setdefault(repr((st["body_state"], st["fruit_position"])), st)
+        tab = inject.thin([seen[k] for k in sorted(seen)], cfg.get("limit"))
+        cfg["episodes"] = len(tab)
+        bs = jnp.asarray(np.array([t["body_state"] for t in tab], dtype=np.int32))
+        sc = jnp.asarray(np.array([[t["head_position"]["row"], t["head_position"]["col"], t["fruit_position"]["row"],
+                                    t["fruit_position"]["col"], t["length"]] for t in tab], dtype=np.int32))
+
+        class Injected(Snake):
+            def reset(self, key):
+                j = key[1] % bs.shape[0]
+                body_state = bs[j]
+                head = Position(row=sc[j, 0], col=sc[j, 1])
+                state = State(key=key, body=body_state > 0, body_state=body_state, head_position=head,
+                              tail=body_state == 1, fruit_position=Position(row=sc[j, 2], col=sc[j, 3]), length=sc[j, 4],
+                              step_count=jnp.array(0, jnp.int32), action_mask=self._get_action_mask(head, body_state))
+                return state, restart(observation=self._state_to_observation(state))
+
+        return Injected(**cfg["ctor"])
+
+    def episode_key(self, cfg, ep, seed):
+        if "inject" not in cfg:
+            return None
+        from harness import inject
+
+        return inject.ep_key(ep)
 
     def cfg_record(self, cfg, env):
         rec = dict(DEFAULTS)
